@@ -42,6 +42,12 @@ func (k Keeper) MigrateAccount(goCtx context.Context, msg *types.MsgMigrateAccou
 			return nil, err
 		}
 	}
+	// the target must exist as an account: a source without liquid coins sends nothing to it, and the unbonding
+	// entries it receives are paid out at maturity with UndelegateCoins, which fails for an unknown account
+	if k.accountKeeper.GetAccount(ctx, toAddress.Bytes()) == nil {
+		k.accountKeeper.SetAccount(ctx, k.accountKeeper.NewAccountWithAddress(ctx, toAddress.Bytes()))
+	}
+
 	// migrate Execute
 	for _, m := range k.GetMigrateI() {
 		if err = m.Execute(ctx, k.cdc, fromAddress, toAddress); err != nil {
